@@ -105,6 +105,8 @@ func C05(ctx *core.Ctx, r *core.Report) {
 	c05NoCrash(ctx, r)
 	c05MinMax(ctx, r)
 	c05BoundsExact(ctx, r)
+	c05ListElementsIndividually(ctx, r)
+	postConstraintsAlwaysRun(ctx, r)
 	// the type check of written values is one of the registered constraints: it must survive
 	// every later registration and be inherited by every child set
 	c07Accumulate(ctx, r)
